@@ -215,7 +215,26 @@ class PITConv1d(nn.Conv1d, PITModule):
                 inp = cast(fx.Node, inp)
                 if inp.op == 'call_module':
                     if isinstance(mod.get_submodule(str(inp.target)), nn.ConstantPad1d):
-                        mod.add_submodule(str(inp.target), new_pad)
+                        # is this padding layer (at any of its call sites) also consumed by something
+                        # else than this very layer?
+                        shared = any(
+                            not (u.op == 'call_module' and u.target == n.target)
+                            for o in mod.graph.nodes
+                            if o.op == 'call_module' and o.target == inp.target
+                            for u in o.users)
+                        if not shared:
+                            mod.add_submodule(str(inp.target), new_pad)
+                        else:
+                            # the padding layer also serves other layers (or other call sites),
+                            # which may need a different amount: this layer gets its own
+                            mod.add_submodule(str(n.target) + "_pad", new_pad)
+                            with mod.graph.inserting_before(n):
+                                new_node = mod.graph.call_module(
+                                    str(n.target) + "_pad",
+                                    args=inp.args)
+                            n.replace_input_with(inp, new_node)
+                            if len(inp.users) == 0:
+                                mod.graph.erase_node(inp)
                         break  # Found it, we can exit and go on
             else:  # Did not find anything
                 mod.add_submodule(str(n.target) + "_pad", new_pad)
